@@ -83,6 +83,15 @@ def case_spec(draw, algo=None):
         ds, pr, tickers = draw(clean_universe())
     n = len(ds)
     g = gen.max_gap_days(ds)
+    if algo in ("WeighInvVol", "WeighERC", "WeighMeanVar", "TargetVol", "PTE_Rebalance") and draw(st.booleans()):
+        # a ticker of the universe that is never selected and has holes in its history (late listing, halts): the estimation sample
+        # of the selected names is theirs alone
+        zcol = draw(gen.price_path(n, vol=0.05, decimals=4))
+        holes = draw(st.lists(st.integers(0, n - 1), min_size=1, max_size=max(1, n // 3), unique=True))
+        for h_ in holes:
+            zcol[h_] = None
+        pr = dict(pr)
+        pr["z"] = zcol
     spec = {"dates": ds, "prices": pr, "algo": algo, "params": {}, "rng_seed": draw(st.integers(0, 10**6)), "frames": {}, "month_calendar": month_cal}
     p = spec["params"]
     sel_kind = draw(st.sampled_from(["many", "many", "many", "single", "empty"]))
@@ -455,6 +464,9 @@ def case_weigh(ctx, spec):
             vol0 = math.sqrt(max(wv0 @ S @ wv0, 0.0) * p["af"])
             if vol0 < 1e-10:
                 raise Discard("zero ex-ante vol")
+            # a long/short pair of almost identical series: w'Sw is a tiny difference of large terms, whichever way it is summed
+            if np.abs(np.outer(wv0, wv0) * S).sum() > 1e6 * abs(wv0 @ S @ wv0):
+                raise Discard("ill-conditioned quadratic form")
             if set(w) != set(keys):
                 raise Violation("TargetVol changed the keys %s -> %s" % (keys, sorted(w)), signature=sig + ":keys")
             wv = np.array([w[k] for k in keys])
